@@ -9,7 +9,7 @@ PROP = {
                      "every stochastic operation is modelled as a Rand tree (free monad of primitive requests): by construction a model has no other access to randomness; that the REAL code has none is established only by the tie"],
     "assumptions": ["absence of ambient influences other than the generator (time, addresses, thread-local rand::rng(), HashMap order) cannot be a theorem about the code; it is what the repeated differential runs sample: every stochastic case is run twice from cloned generator states (results and final generator states must coincide) and the real generator must end in the same state as the shadow generator that answered exactly the model's requests",
                     "Generation::{serial,par}_next use rand::rng() by design and are covered by C09, not here"],
-    "explanation": "Lean theorems: run_deterministic / run_bind / run_append (a Rand computation is a function of its answers, reads them strictly left to right and nothing beyond what it read); eval_depends_on_lookup_only and impl_eval_depends_on_lookup_only (the latter for the code-shaped interpreter on well-formed states, via bound_congr / run_eq_spec) (Push evaluation depends on the input bindings only through what each name resolves to, for every step budget) and builder_inputs_order_free (call sequences binding the same names to the same values in any order build states that resolve alike). Tie: family push-det builds the real state with the inputs declared in every permutation (up to 4 inputs, 24 orders), runs each twice and demands identical dumps equal to the model's; the stochastic families of C06-C08, C10-C13 are re-run here: each case checks a second run from a cloned generator and the equality of the real and the shadow generator state after the call.",
+    "explanation": "Lean theorems: run_deterministic / run_bind / run_append (a Rand computation is a function of its answers, reads them strictly left to right and nothing beyond what it read); history_append / next_call_depends_on_state_only (a history of calls on one generator is the concatenation of its parts, and whatever histories ran before - if they leave the generator in the same state, the next call gives the same result); eval_depends_on_lookup_only and impl_eval_depends_on_lookup_only (the latter for the code-shaped interpreter on well-formed states, via bound_congr / run_eq_spec) (Push evaluation depends on the input bindings only through what each name resolves to, for every step budget) and builder_inputs_order_free (call sequences binding the same names to the same values in any order build states that resolve alike). Tie: family push-det builds the real state with the inputs declared in every permutation (up to 4 inputs, 24 orders), runs each twice and demands identical dumps equal to the model's; the stochastic families of C06-C08, C10-C13 are re-run here: each case checks a second run from a cloned generator and the equality of the real and the shadow generator state after the call.",
 }
 META = {
     "level_text": "The Push half is a machine-checked theorem (evaluation independent of input declaration order; inputs are a passenger of every instruction). For the operators the model is deterministic by construction, so the weight of 'draws randomness only from the supplied generator' rests on the tie: double runs from cloned generator states and comparison of the real generator's final state with a shadow generator advanced by exactly the model's primitive requests, on every stochastic correspondence case; all permutations of input declarations for Push programs.",
